@@ -489,6 +489,10 @@ def main(tier, replay=None):
         chk.broke("implementation harness does not compile against /repo", l2)
         return chk.finish()
     rc, mc, err = vf.run_lines(himpl, "".join("ring.maxc %s 3\n" % n for n in sorted(RINGS)))
+    if rc == 124:
+        chk.notes.append("INCONCLUSIVE: the implementation harness timed out on ring.maxc")
+        chk.cov["inconclusive_streams"] = ["implementation harness time-out"]
+        return chk.finish()
     if rc != 0 or len(mc) != len(RINGS):
         chk.broke("harness failed on ring.maxc", err)
         return chk.finish()
@@ -869,6 +873,14 @@ def main(tier, replay=None):
                          typ=sg, K=K, hex=hexm, n=n, text=t)
         for a in ([0, 9, 10**19, 2**N - 1] if K < 12 else [2**N - 1]):      # ruint<K>(const char*) of the text operator<< prints
             add("ru.cstr", "ru.cstr %d 0 %d" % (K, a), None, K=K, a=a)
+    # display_dec with the buffer size the source declares (re-read above), against the model's buffered loop (C19_ruint_dec_buffer)
+    bufinfo = chk.cov.get("source_constants", {}).get("recint.display_dec.buffer")
+    for K in (6, 7, 8, 9, 10, 11, 12):
+        N = 1 << K
+        D = len(str(2**N - 1))
+        buf = bufinfo["size_vs_digits"][K][0] if isinstance(bufinfo, dict) else N // 3 + 2
+        for a in ([2**N - 1, 10**(D - 1), 10**(D - 1) - 1, 0] if K < 11 else [2**N - 1]):
+            add("ru.wbuf", "ru.write %d 0 %d" % (K, a), "ru.wbuf %d %d" % (buf, a), K=K, a=a, buf=buf)
     poly_shapes = [[5, 3, 1, 0], [0, 1, 3, 5], [2, 2, 0, 1], [4, 0, 4], [1, 0]]
 
     def poly_text(rng_, p, kind_, degs, csep, psep, trail):
@@ -1006,8 +1018,11 @@ def main(tier, replay=None):
             rc_ = [c["case"] for c in rj.get("failing_inputs", []) if isinstance(c.get("case"), dict) and "impl" in c["case"]]
             for c in rc_:       # integers of more than 40 digits were stored as text
                 for k, v in list(c.get("spec", {}).items()):
-                    if isinstance(v, str) and k in ("z", "n", "d", "a", "p", "q", "old") and re.fullmatch(r"-?[0-9]+", v):
+                    if isinstance(v, str) and k not in ("text", "tail", "var", "sep", "typ", "reader", "site", "ring", "variant", "rkind", "sg") \
+                            and re.fullmatch(r"-?[0-9]+", v):
                         c["spec"][k] = int(v)
+                    elif isinstance(v, list) and k in ("q", "q2"):
+                        c["spec"][k] = tuple(int(x) for x in v)
             cases = rc_ or cases
         except Exception as ex:
             vf.log("cannot read replay file: %s" % ex)
@@ -1015,6 +1030,10 @@ def main(tier, replay=None):
     # 4. run both sides
     impl_in = "".join(c["impl"] + "\n" for c in cases)
     rc, iout, ierr = vf.run_lines(himpl, impl_in, timeout=1500)
+    if rc == 124:       # our own tooling ran out of time (machine load): inconclusive, recorded, not a violation of the property
+        chk.notes.append("INCONCLUSIVE: the implementation harness did not finish %d cases within 1500 s; no comparison was made" % len(cases))
+        chk.cov["inconclusive_streams"] = ["implementation harness time-out"]
+        return chk.finish()
     if rc != 0 or len(iout) != len(cases):
         chk.broke("implementation harness failed (rc=%s, %d/%d lines)" % (rc, len(iout), len(cases)), ierr)
         return chk.finish()
@@ -1022,7 +1041,10 @@ def main(tier, replay=None):
     midx = [i for i, c in enumerate(cases) if c["model"]]
     if drv:
         rc, mo, merr = run_chunks(drv, [cases[i]["model"] for i in midx], 8 if big else 4)
-        if rc != 0 or len(mo) != len(midx):
+        if rc == 124:
+            chk.notes.append("INCONCLUSIVE: the extracted model driver did not finish within 1700 s; the implementation was compared with the python oracles only")
+            chk.cov.setdefault("inconclusive_streams", []).append("model driver time-out")
+        elif rc != 0 or len(mo) != len(midx):
             chk.broke("model driver failed (rc=%s, %d/%d lines)" % (rc, len(mo), len(midx)), merr)
         else:
             mout = dict(zip(midx, mo))
@@ -1031,7 +1053,9 @@ def main(tier, replay=None):
     if drv:
         pidx = [i for i, c in enumerate(cases) if c["kind"] == "poly.write" and iout[i].split()]
         rc, po, perr = run_chunks(drv, ["poly.parse %s %s" % (hx(cases[i]["spec"]["var"]), iout[i].split()[0]) for i in pidx], 2)
-        if rc != 0 or len(po) != len(pidx):
+        if rc == 124:
+            chk.cov.setdefault("inconclusive_streams", []).append("model driver time-out (poly.parse)")
+        elif rc != 0 or len(po) != len(pidx):
             chk.broke("model driver failed on poly.parse (rc=%s, %d/%d lines)" % (rc, len(po), len(pidx)), perr)
         else:
             for i, l in zip(pidx, po):
@@ -1288,6 +1312,12 @@ def judge(chk, c, got, mline, gfq_texts):
                 bad = True               # the harness stops only when the stream is not good
             if bad:
                 chk.broke("correspondence model/implementation differs on `%s`: model=%s impl=%s" % (c["impl"][:300], mline[:300], raw[:300]))
+    elif kind == "ru.wbuf":
+        exp = [hx(str(sp["a"]))]
+        if got != exp:
+            fail("RecInt::operator<<(ruint)", "K=%d,dec" % sp["K"], exp[0], "decimal text, buffer of %d characters" % sp["buf"])
+        corr(mt, got)
+        model_vs_spec(mt == exp, exp[0])
     elif kind == "ru.cstr":
         exp = [hx(str(sp["a"])), str(sp["a"])]
         if got != exp:
